@@ -22,7 +22,9 @@ class Untranslatable(Exception):
 
 # --------------------------------------------------------------------------- utils
 def parse(repo, rel):
-    with open(os.path.join(repo, rel)) as f:
+    import warnings
+    with open(os.path.join(repo, rel)) as f, warnings.catch_warnings():
+        warnings.simplefilter("ignore")          # e.g. invalid escape sequences in docstrings of the source
         return ast.parse(f.read())
 
 
